@@ -117,6 +117,12 @@ def reps(dt):
     out = [("datetime", dt), ("iso-T", dt.isoformat()), ("iso-space", dt.isoformat(sep=" "))]
     if dt.utcoffset() == timedelta(0):
         out.append(("iso-Z", dt.replace(tzinfo=None).isoformat() + "Z"))
+    else:
+        iso = dt.isoformat()
+        # ISO-8601 basic offset forms: +hhmm, and +hh when the offset has no minutes
+        out.append(("iso-offset-no-colon", iso[:-6] + iso[-6:].replace(":", "")))
+        if iso.endswith(":00"):
+            out.append(("iso-offset-hours-only", iso[:-3]))
     return out
 
 
